@@ -98,7 +98,7 @@ FIRST_MISS = {
     ('C02', 'm14'): "the in-memory path always used NLStringRef(pointer, size); in 30 % of the scenarios the bytes are also handed over as a std::string (whose size, not its first NUL, ends the input) after the guarded-pointer path has come back, and both must give the same notifications",
     ('C19', 'm15'): "long names were generated for C09 only; 12 % of the C19 scenarios now have distinct names of 40..5000 characters that differ in the last few only",
     ('C20', 'm14'): "no quadratic body lost its quadratic part; the generator now has a function of a quadratic body whose terms cancel once sorted and merged (abs(x*y - y*x + z))",
-    ('C03', 'm14'): "NOT CAUGHT (final check exits 0): the change is in the C adapter of the feeder interface (api/c/nl-feeder-c-impl.h); the C03 writer party is a C++ feeder only - a C callback-table feeder party was not built in the time left",
+    ('C03', 'm14'): "the change is in the C adapter of the feeder interface (api/c/nl-feeder-c-impl.h) and the C03 writer party was a C++ feeder only; session 4 added a third writer party: a C callback table (NLW2_NLFeeder_C -> NLW2_LoadNLFeed2_C) that feeds the linear shadow of every generated model, text and binary, compared item by item with the same feed history",
     ('C03', 'm15'): "NOT CAUGHT by the C03 check (final check exits 0): the change is in NLFeeder_Easy (the feeder behind NLModel); NLModel is the writer party of C08, whose check reports it (real-valued variable suffix through the permutation), not of C03",
     ('C04', 'm15'): "NOT CAUGHT (final check exits 0): a functional constraint shared by two original constraints stays linked to the first user only; the oracle matches images of linear rows by content and has no independent notion of which delivered rows belong to a nonlinear constraint",
     ('C05', 'm14'): "the writer party entered at mp::WriteSolFile with its own solution object; a second writer party now enters where a driver does - suffix values reported to an mp::Problem, vectors handed to mp::SolutionWriterImpl::HandleSolution as pointers (20 % of the scenarios that fit that interface)",
